@@ -28,7 +28,12 @@
 (* Den(form, f, a, b, c) is the denotation of each application form named  *)
 (* by the property; FormsAgree is the property on this model.              *)
 (***************************************************************************)
-EXTENDS Integers, Sequences, TLC
+EXTENDS Integers, Sequences, IOUtils, TLC
+
+\* negative control (environment variable C04_MUTANT): "juxta-always" makes the call-site rule partially
+\* apply a function argument even when the callee is itself a function; "rsec-always" (Trace_Apply)
+\* treats every one-argument call as a right section
+Mutant == IF "C04_MUTANT" \in DOMAIN IOEnv THEN IOEnv.C04_MUTANT ELSE "none"
 
 Data(id) == [k |-> "data", id |-> id]
 Prim(n, one) == [k |-> "prim", n |-> n, one |-> one]
@@ -84,7 +89,8 @@ Run(fn, args) ==
 
 \* the call-site rule
 CallOrPartApply(callee, args) ==
-    IF IsFunc(callee) THEN Run(callee, args)
+    IF Mutant = "juxta-always" /\ IsFunc(callee) /\ Len(args) = 1 /\ IsFunc(args[1]) THEN PA1(args[1], callee)
+    ELSE IF IsFunc(callee) THEN Run(callee, args)
     ELSE IF callee.k = "data"
          THEN (IF Len(args) = 1 /\ IsFunc(args[1]) THEN PA1(args[1], callee) ELSE Err)
     ELSE Unknown
